@@ -67,10 +67,36 @@ def render(ast, layout):
     return lang.to_source(ast, layout)
 
 
+@family("C14")
+def fam_c14(rnd, tier):
+    """the families where the value representation matters most: the exhaustive operator table, precedence
+    chains, numbers/strings/collections as values flowing through variables, closures, fields and lists"""
+    out = []
+    for i, ast in enumerate(gen.operator_table_programs()):
+        out.append((f"c14op:{i}", ast, ["canon"]))
+    n = 250 if tier == "quick" else 8000
+    for i in range(n):
+        ast, pos = gen.program_c01(rnd)
+        out.append((f"c14:{i}:{pos}", ast, ["canon"]))
+    for i in range(n // 2):
+        out.append((f"c14cls:{i}", gen.program_c03(rnd), ["canon"]))
+        out.append((f"c14clo:{i}", gen.program_c02(rnd), ["canon"]))
+    return out
+
+
+@family("C18")
+def fam_c18(rnd, tier):
+    n = 600 if tier == "quick" else 20000
+    return [(f"c18:{i}", gen.program_c18(rnd), ["canon", "pad"]) for i in range(n)]
+
+
 def run(pid, tier, replay=None):
     v = vlib.Verdict(pid, tier)
     rnd = random.Random(vlib.seed() * 7919 + int(pid[1:]))
     binary = vlib.build_harness()
+    binaries = [("enum", binary)]
+    if pid == "C14":
+        binaries.append(("nan_boxing", vlib.build_harness(nan_boxing=True)))
     kf = {f["id"]: f for f in vlib.known_findings().get("findings", []) if pid in f.get("properties", [])}
     if replay:
         rp = json.load(open(replay))["replay"]
@@ -87,9 +113,18 @@ def run(pid, tier, replay=None):
     vmcases = []
     for c in cases:
         for lay in c["layouts"]:
-            src, _ = render(c["ast"], lay)
-            vmcases.append({"id": f"{c['id']}|{lay}", "files": {"main.lay": src}, "_case": c["id"], "_layout": lay})
-    results = vlib.run_batch(binary, [{k: x[k] for k in ("id", "files")} for x in vmcases], per_case_timeout=20)
+            src, line_of = render(c["ast"], lay)
+            vmcases.append({"id": f"{c['id']}|{lay}", "files": {"main.lay": src}, "_case": c["id"], "_layout": lay, "_lines": line_of})
+    vm2 = []
+    for rep, b in binaries:
+        res = vlib.run_batch(b, [{k: x[k] for k in ("id", "files")} for x in vmcases], per_case_timeout=20)
+        for x in vmcases:
+            y = dict(x)
+            y["_rep"] = rep
+            y["_res"] = res[x["id"]]
+            vm2.append(y)
+    vmcases = vm2
+    results = None
     skipped = collections.Counter()
     model_errors = []
     judged = 0
@@ -105,15 +140,19 @@ def run(pid, tier, replay=None):
         if p["st"].startswith("model-error"):
             model_errors.append((vc["_case"], p["st"]))
             continue
-        r = results[vc["id"]]
+        r = vc["_res"]
         judged += 1
         if p["steps"] > 30:
             distinct.add(vc["files"]["main.lay"])
-        diff = langrun.compare(p, r)
+        p2 = dict(p)
+        p2["out"] = langrun.resolve_backtraces(p["out"], vc["_lines"])
+        diff = langrun.compare(p2, r)
+        if diff is None and pid == "C18":
+            diff = langrun.compare_traceback(p, r, vc["_lines"])
         if diff:
             c = bycase[vc["_case"]]
-            v.violation(f"{vc['id']}: {diff}"[:500],
-                        {"id": c["id"], "layout": vc["_layout"], "ast": c["ast"], "source": vc["files"]["main.lay"],
+            v.violation(f"{vc['id']} [{vc['_rep']} build]: {diff}"[:500],
+                        {"id": c["id"], "layout": vc["_layout"], "ast": c["ast"], "source": vc["files"]["main.lay"], "build": vc["_rep"],
                          "predicted": {"out": p["out"], "st": p["st"]},
                          "observed": {"stdout": r.get("stdout", "")[:3000], "stderr": r.get("stderr", "")[-1500:],
                                       "status": r["status"], "panic": r.get("panic", "")}})
